@@ -12,6 +12,8 @@ pub fn base_env() -> TypeEnv {
     let f = Scalar::F32;
     env.add(StructDef { name: INNER.into(), members: vec![Member::plain("x", Ty::Vec(3, f)), Member::plain("y", Ty::Scalar(f))] });
     env.add(StructDef { name: INNER2.into(), members: vec![Member::plain("p", Ty::Vec(2, f)), Member::plain("q", Ty::Scalar(Scalar::U32)), Member::plain("r", Ty::Scalar(f))] });
+    // a second struct with exactly the members of INNER (look-alike types must keep their own names)
+    env.add(StructDef { name: "InnerTwin".into(), members: vec![Member::plain("x", Ty::Vec(3, f)), Member::plain("y", Ty::Scalar(f))] });
     env.add(StructDef { name: DEEP.into(), members: vec![Member::plain("head", Ty::Scalar(Scalar::I32)), Member::plain("inner", Ty::Struct(INNER.into())), Member::plain("tail", Ty::Vec(2, f))] });
     env
 }
@@ -133,6 +135,23 @@ pub fn alias_variants(p: &StructProg) -> Vec<StructProg> {
             q.src = format!("{aliases}{head}{body}");
             q.key = format!("alias-{variant}|{}", p.key);
             out.push(q);
+        }
+    }
+    out
+}
+
+/// Structs with identical member lists used side by side: as sibling members, through arrays, one of them nested
+/// deeper - every arrangement of {Inner, InnerTwin} over three member positions plus a scalar.
+pub fn lookalike_space() -> Vec<StructProg> {
+    let mut out = vec![];
+    let tys = [Ty::Struct(INNER.into()), Ty::Struct("InnerTwin".into()), Ty::Array(Box::new(Ty::Struct("InnerTwin".into())), 2), Ty::Array(Box::new(Ty::Struct(INNER.into())), 2)];
+    for a in 0..tys.len() {
+        for b in 0..tys.len() {
+            for c in 0..tys.len() {
+                let names = [a, b, c].iter().map(|i| ["I", "T", "TA", "IA"][*i]).collect::<Vec<_>>().join("-");
+                let members = vec![Member::plain("first", tys[a].clone()), Member::plain("second", tys[b].clone()), Member::plain("count", Ty::Scalar(Scalar::U32)), Member::plain("third", tys[c].clone())];
+                out.push(make_prog(members, "storage", format!("lookalike|{names}")));
+            }
         }
     }
     out
